@@ -546,6 +546,7 @@ XAtoms == << Tok("T1"), Tok("T2"), Tok("T3"), Tok("T8"), Tok("T9"),
              Iface("I1", "a", <<>>), Iface("I2", "a", <<"I1">>),
              MkAtom("C", "tok", "a", <<>>, <<>>, <<Impl("I1", "pointer"), Impl("I2", "pointer")>>, ""),
              MkAtom("C1", "tok", "a", <<>>, <<>>, <<Impl("I1", "pointer")>>, ""),
+             MkAtom("CV", "tok", "a", <<>>, <<>>, <<Impl("I1", "value")>>, ""),
              StructT("S1", "a", <<Fld("A", "T1"), FldT("D", "T8", "foreign"), FldT("E", "T3", "other")>>),
              TokIn("U1", "b"), TokIn("U2", "b"), StructT("S9", "b", <<Fld("A", "U1"), Fld("c", "U2")>>), TokIn("V1", "c"),
              StructT("S2", "a", <<Fld("F", "T2"), Fld("G", "T3")>>) >>
@@ -618,6 +619,9 @@ XProg(v) ==
     [] v = "bind-after-concrete" ->             \* the concrete type is resolved before the interfaces bound to it
          mk(<<XF("Top", <<"*C", "I1", "I2">>, "T1"), BindL("B1", "I1", "*C"), BindL("B2", "I2", "*C"), XF("PC", <<>>, "*C")>>, <<>>,
             <<XInj("Inject", <<>>, "T1", <<ItL(1), ItL(2), ItL(3), ItL(4)>>, 1), XInj("InjectRev", <<>>, "T1", <<ItL(4), ItL(3), ItL(2), ItL(1)>>, 1)>>)
+    [] v = "iface-result-bound-to-value-struct" ->   \* the injector returns an interface bound to a non-pointer struct; its provider can fail
+         [mk(<<BindL("B", "I1", "CV"), Func("PCV", <<"T2">>, "CV", TRUE, TRUE), Func("P2", <<>>, "T2", TRUE, FALSE)>>, <<>>,
+             <<[XInj("Inject", <<>>, "I1", <<ItL(1), ItL(2), ItL(3)>>, 1) EXCEPT !.cl = TRUE, !.er = TRUE]>>) EXCEPT !.fam = "R"]
     [] v = "same-set-twice-direct" ->          \* one set listed twice in the same call
          mk(<<XF("P2", <<>>, "T2"), XF("P1", <<"T2">>, "T1")>>, <<SetD("SetA", "a", <<ItL(1)>>)>>,
             <<XInj("Inject", <<>>, "T1", <<ItS(1), ItL(2), ItS(1)>>, 1)>>)
@@ -628,7 +632,8 @@ XVariants == {"star-foreign-tag-missing", "star-foreign-tag-ok", "two-files-firs
               "missing-behind-bind", "missing-behind-bind-2", "bind-iface-not-implementing", "arg-returned-through-bind",
               "arg-returned-directly", "shared-import-bind-lacks-concrete", "multi-name-var-sets", "same-set-twice-direct", "same-set-twice-in-set",
               "foreign-struct-star", "foreign-struct-unexported-name", "foreign-struct-exported-name", "variadic-err-provider",
-              "same-named-sets-two-packages", "two-unnamed-values", "same-name-packages", "two-fieldsof-items", "bind-after-concrete"}
+              "same-named-sets-two-packages", "two-unnamed-values", "same-name-packages", "two-fieldsof-items", "bind-after-concrete",
+              "iface-result-bound-to-value-struct"}
 FamilyX(p, vs) == \E v \in vs : p = XProg(v)
 
 (* ======================================================================== *)
